@@ -1,2 +1,50 @@
 #![allow(warnings, clippy::all, clippy::pedantic, clippy::nursery)]
+//@ module: commands::restore
 use super::*;
+use crate::error::verif_harness as vh;
+use crate::blob::BlobLocations;
+
+fn any_group(pack: u8) -> PackInfo {
+    let from_file = if kani::any() { Some((kani::any::<usize>(), kani::any::<u64>(), kani::any::<u32>())) } else { None };
+    let off: u32 = kani::any();
+    let len: u32 = kani::any();
+    kani::assume(u64::from(off) + u64::from(len) <= u64::from(u32::MAX - 256 * 1024));
+    // member lists are SmallVecs (out of CBMC's reach when appended to); kept empty, see c14_coalesce_step_covers_members
+    PackInfo { pack_id: PackId::from(vh::mk_id(pack)), from_file, locations: BlobLocations { offset: off, length: len, blobs: SmallVec::new() } }
+}
+
+//@ harness: c14_restore_group_coalesce
+//@ prop: C14
+//@ tier: quick
+//@ timeout: 600
+//@ kernel: restore::PackInfo::coalesce, BlobLocations::{can_coalesce, append}
+//@ bound: two arbitrary read groups (pack id from a 2-element domain, optional "read from an existing destination file" source with symbolic parameters, symbolic pack range below 4 GiB - 256 KiB); one coalesce step
+//@ oracle: groups are merged only if they are in the same pack, the ranges can be coalesced, and the merged group reads from the pack - a merged group never reads from an existing destination file (it would hand the first blob's bytes to every member); a refused merge returns both groups unchanged
+//@ assume: blobs end below 4 GiB - 256 KiB
+#[kani::proof]
+#[kani::unwind(36)]
+pub(crate) fn c14_restore_group_coalesce() {
+    let (pa, pb): (u8, u8) = (kani::any(), kani::any());
+    kani::assume(pa < 2 && pb < 2);
+    let a = any_group(pa);
+    let b = any_group(pb);
+    let (a_ff, b_ff) = (a.from_file, b.from_file);
+    let (ao, al, bo, bl) = (a.locations.offset, a.locations.length, b.locations.offset, b.locations.length);
+    let could = a.locations.can_coalesce(&b.locations);
+    match a.coalesce(b) {
+        Ok(m) => {
+            assert!(pa == pb && could);
+            assert!(m.from_file.is_none(), "a merged read group must be read from the pack");
+            assert!(m.pack_id == PackId::from(vh::mk_id(pa)));
+            assert!(m.locations.offset == ao && m.locations.length == bo + bl - ao);
+            kani::cover!(b_ff.is_some(), "a from-file blob absorbed into a pack read");
+            std::mem::forget(m);
+        }
+        Err((x, y)) => {
+            assert!(x.from_file == a_ff && y.from_file == b_ff);
+            assert!(x.locations.offset == ao && x.locations.length == al && y.locations.offset == bo && y.locations.length == bl);
+            kani::cover!(pa == pb && could && a_ff.is_some(), "merge refused because the first group reads from a file");
+            std::mem::forget(x); std::mem::forget(y);
+        }
+    }
+}
